@@ -225,6 +225,7 @@ def run(rep, tier):
     for h, ty in (("float+", "double"), ("int+", "long")):
         body = [v for k, v in txt.items() if '"%s"' % h in k]
         rep.check(bool(body) and ">=0" in body[0].replace(".0", ""), "R11.3", "nonnegative|" + h, "%s requires value >= 0" % h, "IsValidOption accepts negative values for %s" % h, iv.loc())
+    check_multichoice(rep, iv)
     lint_xml(rep, heads, reserved)
 
     # ---------------------------------------------------------------- R11.4 TAINT
@@ -433,3 +434,88 @@ def unwrap_fn(a):
     if a is not None and a.get("k") == "ref":
         return a.get("qname") or a.get("name")
     return None
+
+
+def check_multichoice(rep, iv):
+    """multi-selection choices ('[a,b,c]'): the value is valid exactly when EVERY word is a declared choice.  Decided by running the folded
+    word loop on an abstract two-word value for the four membership combinations."""
+    import itertools
+    import sympy as sp
+    from vsa.cases import decide, resolve_ite
+    fo = Fold(iv, inline=False).run()
+    conds = getattr(fo, "conds", {})
+    cp = iv.j["params"][1]["name"]
+    cands = []
+    for l in getattr(fo, "loops", []):
+        var = l.get("var")
+        if var is None:
+            continue
+        txt = str(l.get("step")) + str(l.get("breaks"))
+        if "find(" in txt and str(var) in txt and cp in txt:
+            cands.append(l)
+    if len(cands) != 1:
+        rep.broken("R11.3", "IsValidOption: the loop over the words of a multi-selection value was not found (%d candidates)" % len(cands))
+        return
+    l = cands[0]
+    var = l["var"]
+    keys = [k for k, v in l["step"].items() if v is not None and (v != l["syms"][k] or any(b[1].get(k) is not None and b[1].get(k) != l["syms"][k] for b in l.get("breaks", [])))]
+    if len(keys) != 1:
+        rep.broken("R11.3", "IsValidOption: the multi-selection loop carries %d variables, expected the validity flag only" % len(keys))
+        return
+    k = keys[0]
+    sym = l["syms"][k]
+
+    def orc(lf):
+        if isinstance(lf, tuple) and len(lf) == 3 and lf[0] in ("==", "!="):
+            a_, b_ = str(lf[1]), str(lf[2])
+            for x_, y_ in ((a_, b_), (b_, a_)):
+                if x_.startswith("find(") and str(var) in x_ and cp in x_ and y_ in ("cend(%s)" % cp, "end(%s)" % cp):
+                    return ("FOUND", lf[0] == "!=")
+        if lf == sym or str(lf) == str(sym):
+            return ("PREV", True)
+        return None
+
+    def truth(v, A):
+        if v in (True, False, sp.true, sp.false):
+            return bool(v)
+        if hasattr(v, "args") and not isinstance(v, tuple):
+            v = resolve_ite(v, lambda cs: decide(conds[cs], None, A, orc, conds) if cs in conds else None)
+            if v in (True, False, sp.true, sp.false):
+                return bool(v)
+        return decide(v, None, A, orc, conds)
+    bad = None
+    init = l["init"].get(k)
+    if init not in (True, sp.true):
+        bad = "the validity flag starts as %s before the first word" % init
+    for m1, m2 in itertools.product((True, False), repeat=2):
+        if bad:
+            break
+        v, stopped = True, False
+        for m in (m1, m2):
+            A = {"FOUND": m, "PREV": v}
+            took = False
+            for bc, vals in l.get("breaks", []):
+                t = decide(bc, None, A, orc, conds) if bc is not None else True
+                if t is None:
+                    bad = "cannot decide whether the loop is left for a word that is %sa declared choice" % ("" if m else "not ")
+                    break
+                if t:
+                    bv = vals.get(k)
+                    v = truth(bv, A) if bv is not None else v
+                    took = True
+                    break
+            if bad:
+                break
+            if took:
+                break
+            nv = truth(l["step"][k], A)
+            if nv is None:
+                bad = "cannot decide the flag after a word that is %sa declared choice" % ("" if m else "not ")
+                break
+            v = nv
+        if bad:
+            break
+        if v is None or v != (m1 and m2):
+            bad = "for a two-word value whose words are %s / %s the loop ends with valid = %s (required %s): an undeclared word is accepted when %s" % (
+                "declared" if m1 else "UNDECLARED", "declared" if m2 else "UNDECLARED", v, m1 and m2, "a declared word follows it" if not m1 else "it comes last")
+    rep.check(bad is None, "R11.3", "multi-choice-all-words", "a multi-selection value is valid iff every word is a declared choice", "IsValidOption: %s" % bad, iv.loc(l["node"]), sample=True)
